@@ -3,7 +3,7 @@ from .splines_common import NOT_DECIDED_CUBIC_INVERSE
 
 META = dict(
     unbounded_in=["input values", "all parameter values", "spline boxes / tail bounds", "leading (batch, feature) shape of the elementwise kernels"],
-    bounded_in={"num_bins": "1..3 quick; 1..8 (rq, linear) / 1..5 (quadratic, cubic) thorough"},
+    bounded_in={"num_bins": "1..3 quick; thorough 1..8 (rq, linear), 1..5 (cubic), 1..3 (quadratic: its area lemma is unknown to z3 beyond 3 bins)"},
     not_decided=[NOT_DECIDED_CUBIC_INVERSE],
     assumptions=[],
 )
